@@ -449,6 +449,46 @@ static Verdict c09_alias(const Case& c) {
   Verdict V; V.cls = std::string(ntinfo(nt).name) + (divide ? ";/=" : ";*=") + ";component" + std::to_string(k); V.nontrivial = a[k] != 1 && a[k] != 0; return V;
 }
 
+// ================================================================================================ an object combined with itself
+// a op a through ONE object (both operands are references to the same object) must equal a op copy_of_a: a fast path keyed on &left == &right, or an
+// in-place operation that reads what it has already overwritten, shows only here
+template <class T, class X> static std::string self_ops(const char* tname, const X& proto, int n) {
+  std::string m;
+  auto same = [&](const char* what, const auto& r1, const auto& r2) {
+    LD g[9] = {0}, w[9] = {0}; int k;
+    if constexpr (std::is_arithmetic_v<std::decay_t<decltype(r1)>>) { g[0] = r1; w[0] = r2; k = 1; } else { fl(r1, g); fl(r2, w); k = (int)(sizeof(r1) / sizeof(T)); }
+    for (int i = 0; i < k && m.empty(); i++) if (std::memcmp(&g[i], &w[i], 10) != 0 && !(std::isnan(g[i]) && std::isnan(w[i])))
+      m = fmt("%s: %s with both operands the same object gives %s in slot %d, with an equal copy as second operand %s", tname, what, hexld(g[i]).c_str(), i, hexld(w[i]).c_str());
+  };
+  const X a = proto, b = proto;
+  same("a + a", a + a, a + b); same("a - a", a - a, a - b);
+  if constexpr (std::is_same_v<X, Vector<T>> || std::is_same_v<X, PlanarVector<T>>) { same("a.Dot(a)", a.Dot(a), a.Dot(b)); same("a.Cross(a)", a.Cross(a), a.Cross(b)); same("a.Dyadic(a)", a.Dyadic(a), a.Dyadic(b)); }
+  else { same("a * a", a * a, a * b); }
+  { X x = proto, y = proto; x += x; y += b; same("a += a", x, y); }
+  { X x = proto, y = proto; x -= x; y -= b; same("a -= a", x, y); }
+  { X x = proto; const X& r = x; x = r; same("a = a", x, b); }
+  (void)n;
+  return m;
+}
+template <class T> static std::string self_lib(int shape, const LD* a) {
+  if (shape == 2) return self_ops<T>("PlanarVector", mk2<T>(a), 2);
+  if (shape == 3) return self_ops<T>("Vector", mk3<T>(a), 3);
+  if (shape == 6) {
+    std::string m = self_ops<T>("SymmetricDyad", mk6<T>(a), 6); if (!m.empty()) return m;
+    // mixed products with the embedding: S * D(S) and D(S) * S against D(S) * D(S) are covered by c09.embedding; here S * S through one object against the general type
+    return m;
+  }
+  return self_ops<T>("Dyad", mk9<T>(a), 9);
+}
+static Verdict c09_self(const Case& c) {
+  const int nt = (int)c.i[0], n = (int)c.i[1];
+  LD a[9]; for (int i = 0; i < n; i++) a[i] = round_to(nt, c.r[(size_t)i]);
+  const std::string m = nt == 0 ? self_lib<float>(n, a) : nt == 1 ? self_lib<double>(n, a) : self_lib<long double>(n, a);
+  if (!m.empty()) return Verdict::fail(m + fmt(" [%s, components %s]", ntinfo(nt).name, cs(a, n).c_str()));
+  Verdict V; V.cls = std::string(ntinfo(nt).name) + ";shape" + std::to_string(n); V.nontrivial = true; for (int i = 0; i < n; i++) for (int j = i + 1; j < n; j++) if (a[i] == a[j]) V.nontrivial = false;
+  return V;
+}
+
 // ================================================================================================ remaining public members of the math types (for C20)
 template <class T> static std::string api_lib(int shape, const LD* a, const LD* b) {
   auto cmp = [&](const char* what, const LD* got, const LD* want, int n) -> std::string {
@@ -507,6 +547,16 @@ int main(int argc, char** argv) {
     s.gen = [](int inst) { static const int shapes[4] = {2, 3, 6, 9}; const int shape = shapes[inst % 4], nt = inst / 4;
       return rc::gen::map(rc::gen::tuple(gen_reals(shape, nt, -6, 6, kNeg), irange(0, 8), irange(0, 1)), [=](const std::tuple<std::vector<LD>, int, int>& t) { Case c; c.i = {nt, shape, std::get<1>(t), std::get<2>(t)}; c.r = std::get<0>(t); return c; }); };
     s.rule = "in-place scaling x *= s and x /= s of the four vector / tensor types where s is an lvalue referring to one of x's own components (every component position): same bits as scaling by a copy of the number; non-trivial: the component is not 0 or 1";
+    subs.push_back(s);
+  }
+  {
+    Sub s; s.name = "c09.self"; s.property = "C09"; s.instances = 12; s.n_quick = 1500; s.n_thorough = 30000; s.run = c09_self;
+    s.gen = [](int inst) { static const int shapes[4] = {2, 3, 6, 9}; const int shape = shapes[inst % 4], nt = inst / 4;
+      return rc::gen::mapcat(irange(0, 1), [=](int integer) {
+        auto g = integer ? rc::gen::container<std::vector<LD>>((size_t)shape, rc::gen::map(irange(-64, 64), [](int x) { return (LD)x; })) : gen_reals(shape, nt, -6, 6, kNeg);
+        return rc::gen::map(g, [=](const std::vector<LD>& v) { Case c; c.i = {nt, shape}; c.r = v; return c; }); }); };
+    s.rule = "every binary operation of the four vector / tensor types with BOTH operands being the same object (a + a, a - a, a * a / Dot / Cross / Dyadic, a += a, a -= a, a = a) against the same operation with an equal copy as "
+             "second operand: identical bits; integer and real components; non-trivial: all components distinct";
     subs.push_back(s);
   }
   {
